@@ -5,6 +5,7 @@
 -/
 import IpldModel.Model.Store
 import IpldModel.Lemmas.FsAtomic
+import IpldModel.Generated.FsstoreFacts
 namespace Ipld.Props.C18
 open Ipld Ipld.Store
 
@@ -270,5 +271,28 @@ example : ((stepWriter (run (initWorld ws0) (schedB₁ ++ schedB₂)) 0 .kill).w
   decide
 
 end Examples
+
+
+/-! ## (T) the write path as it is in the source on this run -/
+
+/-- Every call on the write path, in source order (pure helpers excluded), is one the writer model `stepWriter`
+    accounts for: a random staging name, ONE open, the caller's writes going straight to that file, close, then
+    remove (abort) or rename via `move`.  Nothing sits between the caller's `Write` and the staging file, and nothing
+    between `Close` and the rename: a write the OS refuses is reported by `Write` itself, and what is renamed is what was
+    written.  Any additional call on this path (a buffer to flush, a sync, a copy) breaks this theorem. -/
+theorem write_path_src : Ipld.Generated.fsAllCalls_src = [
+    ("Store.Put", ["store.PutStream", "wrCommitter", "wr.Write", "wrCommitter", "wrCommitter"]),
+    ("Store.PutStream", ["rand.Read", "os.OpenFile", "f.Close", "os.Remove", "store.pathForKey", "move"]),
+    ("move", ["os.Rename", "haveDir", "os.Rename", "os.Remove"]),
+    ("haveDir", ["os.Mkdir", "haveDir", "os.Mkdir"])] := by decide
+
+/-- The staging file is created exclusively (`O_CREATE|O_EXCL`, write-only, never truncating or appending to an
+    existing file): two writers — in one process or several, through one `Store` value or several over the same
+    directory — can never share a staging file, which is the freshness of staging names the model's writers assume. -/
+theorem staging_open_exclusive_src :
+    Ipld.Generated.stagingOpenFlags_src = ["os.O_CREATE", "os.O_EXCL", "os.O_WRONLY"] := by decide
+
+/-- `PutStream` hands out the opened staging file itself as the writer. -/
+theorem putStream_writer_is_file_src : Ipld.Generated.putStreamWriter_src = ["the-opened-file"] := by decide
 
 end Ipld.Props.C18
